@@ -4,9 +4,9 @@
     variables/distributions.py (class methods, the SymbolicDistribution route, a real joint model's state);
     [normal_pdf], [bernoulli_pmf], [weibull_hazard], [weibull_survival], [weibull_pdf], [nu_tilde], [nu_tilde_src],
     [doc_hazard], [doc_survival] are the textbook / documented formulas written by hand in Formulas/Density.v. *)
-From Coq Require Import Reals.
+From Coq Require Import Reals List.
 From Coquelicot Require Import Coquelicot.
-From Leaspy Require Import Base.RAux Formulas.TorchDist Formulas.Density Formulas.DensityProofs Formulas.DensityTie Formulas.DensityConst.
+From Leaspy Require Import Base.RAux Formulas.TorchDist Formulas.Density Formulas.LikelihoodCode Formulas.DensityProofs Formulas.DensityTie Formulas.DensityConst.
 From LeaspyGen Require Import GenC08.
 Local Open Scope R_scope.
 
@@ -137,12 +137,47 @@ Theorem C08_nu_rep_sources : forall nu rho xi tau s : R, gen_nu_rep_sources nu r
 Proof. exact gen_nu_rep_sources_eq. Qed.
 Print Assumptions C08_nu_rep_sources.
 
-(** ** Bernoulli (binary outcomes).  The family delegates to torch.distributions.Bernoulli.log_prob; [gen_bernoulli_nll] is the
-       traced wrapper around the hand-written model of that call (Formulas/TorchDist.v), which is tied to torch by T3 only. *)
+(** ** Bernoulli (binary outcomes).  [gen_bernoulli_nll] / [gen_bernoulli_nll64] are traced from the REAL call path
+       StatelessDistributionFamilyFromTorchDistribution._nll -> torch.distributions.Bernoulli(p).log_prob(y), followed into torch's
+       python code on float32 / float64 symbols: clamp of p to [eps, 1 - eps], logit, then the one compiled kernel, modelled by
+       [torch_bce_with_logits] (Formulas/TorchDist.v; tied to the running torch by T3). *)
+
+(** probabilities the clamp leaves alone (all of [2^-23, 1 - 2^-23] in float32): the negative log-pmf *)
 Theorem C08_bernoulli : forall y p : R,
-  0 < p < 1 -> y = 0 \/ y = 1 -> gen_bernoulli_nll y p = - ln (bernoulli_pmf y p).
+  1 / 8388608 <= p <= 8388607 / 8388608 -> y = 0 \/ y = 1 -> gen_bernoulli_nll y p = - ln (bernoulli_pmf y p).
 Proof. exact bernoulli. Qed.
 Print Assumptions C08_bernoulli.
+
+Theorem C08_bernoulli_f64 : forall y p : R,
+  1 / 4503599627370496 <= p <= 4503599627370495 / 4503599627370496 -> y = 0 \/ y = 1 ->
+  gen_bernoulli_nll64 y p = - ln (bernoulli_pmf y p).
+Proof. exact bernoulli_f64. Qed.
+Print Assumptions C08_bernoulli_f64.
+
+(** EVERY probability argument, saturated (exactly 0 or 1) included: the negative log-pmf at the clamped probability, hence finite *)
+Theorem C08_bernoulli_every_p : forall y p : R,
+  y = 0 \/ y = 1 ->
+  gen_bernoulli_nll y p = - ln (bernoulli_pmf y (clamp_prob (1 / 8388608) (8388607 / 8388608) p)) /\
+  0 <= gen_bernoulli_nll y p <= - ln (1 / 8388608) /\
+  gen_bernoulli_nll64 y p = - ln (bernoulli_pmf y (clamp_prob (1 / 4503599627370496) (4503599627370495 / 4503599627370496) p)) /\
+  0 <= gen_bernoulli_nll64 y p <= - ln (1 / 4503599627370496).
+Proof. exact bernoulli_every_p. Qed.
+Print Assumptions C08_bernoulli_every_p.
+
+(** a saturated probability with the matching outcome (a logistic value rounded to 1.0 with y = 1, or to 0.0 with y = 0)
+    costs -ln(1 - 2^-23) <= 1/8388607: the true value 0 up to one rounding unit *)
+Theorem C08_bernoulli_saturated : forall p : R,
+  (8388607 / 8388608 <= p -> gen_bernoulli_nll 1 p = - ln (8388607 / 8388608)) /\
+  (p <= 1 / 8388608 -> gen_bernoulli_nll 0 p = - ln (8388607 / 8388608)) /\
+  0 <= - ln (8388607 / 8388608) <= 1 / 8388607.
+Proof. exact bernoulli_saturated. Qed.
+Print Assumptions C08_bernoulli_saturated.
+
+(** the hand-written kernel model is the documented loss of torch.nn.BCEWithLogitsLoss *)
+Theorem C08_torch_bce_doc_form : forall x y : R,
+  torch_bce_with_logits x y = - (y * ln (sigmoid x) + (1 - y) * ln (1 - sigmoid x)).
+Proof. exact bce_doc_form. Qed.
+Print Assumptions C08_torch_bce_doc_form.
 
 (** ** Wiring: what the models read is these functions *)
 
@@ -195,6 +230,28 @@ Theorem C08_joint_event_before_ref : forall event delta n_log_nu log_rho xi tau 
 Proof. exact joint_event_before_ref. Qed.
 Print Assumptions C08_joint_event_before_ref.
 
+(** state["nll_attach_event_ind"] of a real joint model WITH sources (one source, one event), composed by the code's own graph from
+    (event, event_bool, n_log_nu, log_rho, xi, tau, sources, zeta): survival shift = sources * zeta *)
+Theorem C08_joint_src_event : forall event delta n_log_nu log_rho xi tau sources zeta : R,
+  0 < event - tau -> delta <> 0 ->
+  gen_joint_src_event_nll_ind event delta n_log_nu log_rho xi tau sources zeta
+  = - ln (weibull_pdf (nu_tilde_src (exp (- n_log_nu)) (exp log_rho) xi (sources * zeta)) (exp log_rho) (event - tau)).
+Proof. exact joint_src_event. Qed.
+Print Assumptions C08_joint_src_event.
+
+Theorem C08_joint_src_censored : forall event delta n_log_nu log_rho xi tau sources zeta : R,
+  delta = 0 ->
+  gen_joint_src_event_nll_ind event delta n_log_nu log_rho xi tau sources zeta
+  = - ln (weibull_survival (nu_tilde_src (exp (- n_log_nu)) (exp log_rho) xi (sources * zeta)) (exp log_rho) (event - tau)).
+Proof. exact joint_src_censored. Qed.
+Print Assumptions C08_joint_src_censored.
+
+Theorem C08_joint_src_event_before_ref : forall event delta n_log_nu log_rho xi tau sources zeta : R,
+  event - tau <= 0 -> delta <> 0 ->
+  gen_joint_src_event_nll_ind event delta n_log_nu log_rho xi tau sources zeta = INFINITY_c.
+Proof. exact joint_src_event_before_ref. Qed.
+Print Assumptions C08_joint_src_event_before_ref.
+
 (** state["nll_regul_xi_ind"], ["nll_regul_tau_ind"], the population priors and the Gaussian attachment of the same model *)
 Theorem C08_prior_xi : forall xi xi_mean xi_std : R,
   0 < xi_std -> gen_prior_xi xi xi_mean xi_std = - ln (normal_pdf xi xi_mean xi_std) + (c32 - ln (sqrt (2 * PI))).
@@ -213,6 +270,22 @@ Theorem C08_prior_population : forall v m s : R,
   gen_prior_log_rho v m s = - ln (normal_pdf v m s) + (c32 - ln (sqrt (2 * PI))).
 Proof. exact prior_population. Qed.
 Print Assumptions C08_prior_population.
+
+(** EVERY latent variable with a Normal prior of EVERY shipped model kind (logistic, linear, shared-speed logistic, joint with and
+    without sources, mixture logistic): [gen_regul_list] is regenerated on every run by introspection of the models' graphs
+    (population and individual latent variables; the inventory is written to the evidence), each entry is the regularity term read
+    through the real graph as a function of (value, prior mean, prior std). *)
+Theorem C08_prior_all_latents : forall v m s : R,
+  0 < s -> List.Forall (fun f : R -> R -> R -> R => f v m s = - ln (normal_pdf v m s) + (c32 - ln (sqrt (2 * PI)))) gen_regul_list.
+Proof. exact prior_all_latents. Qed.
+Print Assumptions C08_prior_all_latents.
+
+(** mixture model: one cluster coordinate of MixtureNormalFamily._nll (individual priors of xi, tau, sources) is the Gaussian nll
+    with that cluster's mean and std *)
+Theorem C08_mixture_cluster : forall x loc scale : R,
+  0 < scale -> gen_mixture_cluster_nll x loc scale = - ln (normal_pdf x loc scale) + (c32 - ln (sqrt (2 * PI))).
+Proof. exact mixture_cluster. Qed.
+Print Assumptions C08_mixture_cluster.
 
 Theorem C08_attach_gaussian : forall y model noise_std : R,
   0 < noise_std ->
